@@ -55,10 +55,21 @@ class WalkerModel:
         for x in ast.walk(tree):
             if isinstance(x, ast.Name) and isinstance(x.ctx, (ast.Store, ast.Del)):
                 stored[x.id] = stored.get(x.id, 0) + 1
+        def tuple_elts(e):
+            # (ast.A, ast.B) | NAME of such a tuple | <tuple> + <tuple>
+            if isinstance(e, ast.Tuple) and e.elts and all(dotted(x) is not None for x in e.elts):
+                return list(e.elts)
+            if isinstance(e, ast.Name) and e.id in self.class_tuples:
+                return list(self.class_tuples[e.id].elts)
+            if isinstance(e, ast.BinOp) and isinstance(e.op, ast.Add):
+                l_, r_ = tuple_elts(e.left), tuple_elts(e.right)
+                return l_ + r_ if l_ is not None and r_ is not None else None
+            return None
         for st in tree.body:
-            if isinstance(st, ast.Assign) and len(st.targets) == 1 and isinstance(st.targets[0], ast.Name) and isinstance(st.value, ast.Tuple) and st.value.elts \
-                    and all(dotted(e) is not None for e in st.value.elts) and stored.get(st.targets[0].id) == 1:
-                self.class_tuples[st.targets[0].id] = st.value
+            if isinstance(st, ast.Assign) and len(st.targets) == 1 and isinstance(st.targets[0], ast.Name) and stored.get(st.targets[0].id) == 1:
+                elts_ = tuple_elts(st.value)
+                if elts_:
+                    self.class_tuples[st.targets[0].id] = ast.Tuple(elts=elts_, ctx=ast.Load())
         self.params = [a.arg for a in fn.args.args]
         if len(self.params) < 2:
             raise AnalysisError('query_traversal: unexpected signature')
